@@ -764,6 +764,7 @@ func (fx *FuncCtx) execSwitch(st *State, x *ast.SwitchStmt) Flow {
 	rest := st.clone() // state in which no earlier case matched
 	var defaultClause *ast.CaseClause
 	base := st
+	matchedAll := false
 	for _, cs := range x.Body.List {
 		cc := cs.(*ast.CaseClause)
 		if cc.List == nil {
@@ -781,12 +782,23 @@ func (fx *FuncCtx) execSwitch(st *State, x *ast.SwitchStmt) Flow {
 			}
 		}
 		c := fx.defineBool("sw", Or(conds...))
+		if c.S == "false" {
+			continue
+		}
 		s1 := rest.clone()
 		s1.branch(c)
 		r := fx.execCaseBody(s1, cc.Body)
 		fl.absorb(r.fl)
 		outs = append(outs, r.outs...)
+		if c.S == "true" {
+			matchedAll = true
+			break
+		}
 		rest.branch(Not(c))
+	}
+	if matchedAll {
+		fl.normal = fx.mergeStates(base, outs)
+		return fl
 	}
 	if defaultClause != nil {
 		r := fx.execCaseBody(rest, defaultClause.Body)
